@@ -93,6 +93,15 @@ func (c *callCtx) writeTo(w *SV, src *SV, maxN int) *SV {
 		c.sinkWrite(ref, src, src.C[2], maxN)
 		return nilError()
 	}
+	if w.File {
+		nn := vc.freshS(SBV64, "nwritten")
+		err := vc.freshError(st, "werr")
+		vc.assume(and(app("bvsle", bvLit(64, 0), nn), app("bvsle", nn, src.C[2]), implies(app("bvslt", nn, src.C[2]), isErr(err))))
+		vc.saneFile(ref)
+		pos := vc.defS(SBV64, sel(st.H["Fpos"], ref), "fpos")
+		c.fileWrite(ref, pos, src, nn, maxN, true)
+		return err
+	}
 	vc.note(aWriter)
 	nn := vc.freshS(SBV64, "nwritten")
 	err := vc.freshError(st, "werr")
@@ -105,19 +114,13 @@ func (c *callCtx) writeTo(w *SV, src *SV, maxN int) *SV {
 // readFullFrom reads exactly len(dst) bytes from reader r into dst (io.ReadFull semantics).
 func (c *callCtx) readFullFrom(r *SV, dst *SV) (n string, err *SV) {
 	vc, st := c.vc, c.n.St
-	ref, isBuf, ok := c.resolveRW(r, "Read", 0)
-	if !ok || isBuf {
+	src, ok := c.source(r, 0)
+	if !ok {
 		vc.note("read from a reader whose identity cannot be resolved: havoc")
 		vc.havocAll(st, "read")
 		return vc.freshS(SBV64, "n"), vc.freshError(st, "rerr")
 	}
-	vc.note(aReadFull)
-	nn := vc.freshS(SBV64, "nfull")
-	e := vc.freshError(st, "rferr")
-	vc.assume(and(app("bvsle", bvLit(64, 0), nn), app("bvsle", nn, dst.C[2]), eq(not(isErr(e)), eq(nn, dst.C[2]))))
-	c.streamRead(ref, dst, nn, constLen(dst.C[2]))
-	c.setFail(ref, isErr(e))
-	return nn, e
+	return c.readFull(src, dst)
 }
 
 func isLittle(order *SV) (little, known bool) {
